@@ -67,7 +67,7 @@ theorem list_get_offset (l : Layout) (hl : 0 < l.align) :
 theorem list_get_offset_typed (h : HostLayouts) (hh : h.WF) (t : BTy) (ht : t.WF) :
     variantFieldOffset h [toMTy t] 0 = some (listGetOffset (rustLayout h t).align) := by
   have hl := layout_agrees' h hh t ht
-  simp [variantFieldOffset, addFields, hl, LayoutBuilder.add, listGetOffset, LayoutBuilder.new, enumTagLayout,
+  simp [variantFieldOffset, addFields, hl, LayoutBuilder.add, listGetOffset, LayoutBuilder.new, locationTagLayout,
     Layout.new, nextMultipleOf]
 
 example : listGetOffset 8 = 8 ∧ listGetOffset 1 = 1 ∧ listGetOffset 16 = 16 := by decide
